@@ -127,6 +127,7 @@ impl Prop for C02 {
         true
     }
     fn run(&self, ctx: &Ctx) {
+        ctx.journal_bytes.set(true);
         let b = ctx.tier.pick(
             Bounds { max_levels: 3, names: 2, modes: 3 },
             Bounds { max_levels: 3, names: 3, modes: 4 },
